@@ -9,10 +9,9 @@
 
 #include "Channel.h"
 
-ezc3d::DataNS::AnalogsNS::Channel::Channel(const std::string &name) :
-    _name(name)
+ezc3d::DataNS::AnalogsNS::Channel::Channel(const std::string &name)
 {
-
+    this->name(name); // removes the trailing spaces, as naming the channel afterwards does
 }
 
 ezc3d::DataNS::AnalogsNS::Channel::Channel(const ezc3d::DataNS::AnalogsNS::Channel &channel) :
